@@ -1,28 +1,20 @@
 // ---- what Compiler::for_ calls (on top of the compilerd model): stubs that log --------------------------------------------------------------------
 pub const ITER_VAR: &'static str = "$iter";
 pub const ITER: &'static str = "iter";
-pub uninterp spec fn name_id(s: &str) -> int;
 #[derive(Clone, Copy)] pub struct Span { pub start: u32, pub end: u32 }
-#[derive(Clone, Copy, PartialEq, Eq, Structural)] pub enum SymbolState { LocalInitialized, LocalCaptured, Other }
 impl Token { #[verifier::external_body] pub fn str(&self) -> (r: &str) ensures name_id(r) == self.id { "" } #[verifier::external_body] pub fn span(&self) -> Span { Span { start: 0, end: 0 } } }
 impl Expr { #[verifier::external_body] pub fn span(&self) -> Span { Span { start: 0, end: 0 } } }
 pub struct For { pub symbols: SymbolTable, pub item: Token, pub iter: Expr, pub body: Block }
 impl For { #[verifier::external_body] pub fn end(&self) -> u32 { 0 } }
-pub enum Fv { Declare(int), Define(int, SymbolState), KnownInvoke(int, u8), StrConst(int), LocalGet(int), LocalSet(int) }
+pub enum Fv { Declare(int), Define(int, SymbolState), KnownInvoke(int, u8), StrConst(int) }
 pub uninterp spec fn fv(e: Fv) -> Ev;
-/// the slot and state a name resolves to while the loop is being compiled
-pub uninterp spec fn slot_of(name: int) -> (u8, SymbolState);
 pub uninterp spec fn str_const(name: int) -> u16;
 pub uninterp spec fn decl_state(name: int) -> SymbolState;
 impl Compiler {
-  #[verifier::external_body] pub fn declare_variable(&mut self, name: &str, span: Span) -> (r: (SymbolState, u16)) ensures quiet(old(self), final(self)), r.0 == decl_state(name_id(name)), final(self).log@ == old(self).log@.push(fv(Fv::Declare(name_id(name)))) { (SymbolState::Other, 0) }
+  #[verifier::external_body] pub fn declare_variable(&mut self, name: &str, span: Span) -> (r: (SymbolState, u16)) ensures quiet(old(self), final(self)), r.0 == decl_state(name_id(name)), final(self).log@ == old(self).log@.push(fv(Fv::Declare(name_id(name)))) { (SymbolState::Uninitialized, 0) }
   #[verifier::external_body] pub fn define_variable(&mut self, name: &str, state: SymbolState, span: Span) ensures quiet(old(self), final(self)), final(self).log@ == old(self).log@.push(fv(Fv::Define(name_id(name), state))) { }
   #[verifier::external_body] pub fn emit_known_invoke(&mut self, name: &str, args: u8, offset: u32) ensures quiet(old(self), final(self)), final(self).log@ == old(self).log@.push(fv(Fv::KnownInvoke(name_id(name), args))) { }
   #[verifier::external_body] pub fn string_constant(&mut self, s: &str) -> (r: u16) ensures quiet(old(self), final(self)), r == str_const(name_id(s)), final(self).log@ == old(self).log@.push(fv(Fv::StrConst(name_id(s)))) { 0 }
-  #[verifier::external_body] pub fn resolve_local(&mut self, name: &str) -> (r: Option<(u8, SymbolState)>) ensures quiet(old(self), final(self)), final(self).log == old(self).log, r == Some(slot_of(name_id(name))) { None }
-  /// varcomp unit: GetLocal / GetBox (SetLocal / SetBox) on that slot
-  #[verifier::external_body] pub fn emit_local_get(&mut self, state: SymbolState, index: u8, end: u32) ensures quiet(old(self), final(self)), final(self).log@ == old(self).log@.push(fv(Fv::LocalGet(index as int))) { }
-  #[verifier::external_body] pub fn emit_local_set(&mut self, state: SymbolState, index: u8, end: u32) ensures quiet(old(self), final(self)), final(self).log@ == old(self).log@.push(fv(Fv::LocalSet(index as int))) { }
   /// the real loop_scope (compilerd unit): its contract
   #[verifier::external_body] pub fn loop_scope(&mut self, end_line: u32, start: Label, end: Label, table: &SymbolTable, cb: BodyCb)
     ensures quiet(old(self), final(self)),
